@@ -105,8 +105,15 @@ Section Abstract.
                only occur inside injected sequences, which are read above) *)
             let target :=
               match lhs with
-              | Node (K KMember _ _) [obj; Node (K KIdentName _ _) [Node (Str kname) []]] =>
-                  match abstract f obj with Some ox => Some (inr (ox, kname)) | None => None end
+              | Node (K KMember _ _) [obj; prop] =>
+                  match prop with
+                  | Node (K KIdentName _ _) [Node (Str kname) []] =>
+                      match abstract f obj with Some ox => Some (inr (inl (ox, kname))) | None => None end
+                  | Node (K KComputed _ _) [kx] =>
+                      (* o[k] += e in sources; o[k] = e as the rewriter builds it *)
+                      match abstract f obj, abstract f kx with Some ox, Some k => Some (inr (inr (ox, k))) | _, _ => None end
+                  | _ => None
+                  end
               | _ => match ident_sym lhs with
                      | Some x => if String.prefix vp x then None else Some (inl x)
                      | None => None
@@ -115,8 +122,10 @@ Section Abstract.
             match target, abstract f rhs with
             | Some (inl x), Some ex =>
                 if String.eqb op "+=" then Some (AddAsgV x ex) else if String.eqb op "=" then Some (AsgV x ex) else None
-            | Some (inr (ox, kname)), Some ex =>
+            | Some (inr (inl (ox, kname))), Some ex =>
                 if String.eqb op "+=" then Some (AddAsgM ox kname ex) else if String.eqb op "=" then Some (AsgM ox kname ex) else None
+            | Some (inr (inr (ox, k))), Some ex =>
+                if String.eqb op "+=" then Some (AddAsgC ox k ex) else if String.eqb op "=" then Some (AsgC ox k ex) else None
             | _, _ => None
             end
         | Node (K KBin _ _) [Node (Str "+") []; l; r] =>
@@ -226,9 +235,16 @@ Section Abstract.
                 end
             | _, _ => None
             end
-        | Node (K KMember _ _) [obj; Node (K KIdentName _ _) [Node (Str mname) []]] =>
-            (* a property read: only as the function the rewriter captures *)
-            match abstract f obj with Some ox => Some (Get ox mname) | None => None end
+        | Node (K KMember _ _) [obj; prop] =>
+            match prop with
+            | Node (K KIdentName _ _) [Node (Str mname) []] =>
+                (* a property read: only as the function the rewriter captures *)
+                match abstract f obj with Some ox => Some (Get ox mname) | None => None end
+            | Node (K KComputed _ _) [kx] =>
+                (* o[k]: only as the old value the rewriter reads for a compound assignment *)
+                match abstract f obj, abstract f kx with Some ox, Some k => Some (GetC ox k) | _, _ => None end
+            | _ => None
+            end
         | _ => None
         end
     end.
@@ -258,6 +274,9 @@ Fixpoint expr_eqb (a b : expr) : bool :=
   | MCall0 o m, MCall0 o' m' => expr_eqb o o' && String.eqb m m'
   | CallT0 f t, CallT0 f' t' => expr_eqb f f' && expr_eqb t t'
   | MCall1 o m a, MCall1 o' m' a' => expr_eqb o o' && String.eqb m m' && expr_eqb a a'
+  | AddAsgC o k e, AddAsgC o' k' e' => expr_eqb o o' && expr_eqb k k' && expr_eqb e e'
+  | AsgC o k e, AsgC o' k' e' => expr_eqb o o' && expr_eqb k k' && expr_eqb e e'
+  | GetC o k, GetC o' k' => expr_eqb o o' && expr_eqb k k'
   | Get o m, Get o' m' => expr_eqb o o' && String.eqb m m'
   | CallT1 f t a, CallT1 f' t' a' => expr_eqb f f' && expr_eqb t t' && expr_eqb a a'
   | Hoist3 n1 e1 n2 e2 n3 e3 b, Hoist3 m1 f1 m2 f2 m3 f3 c =>
